@@ -107,8 +107,14 @@ def a_containment(ctx):
         if key in seen:
             continue
         seen.add(key)
-        if key in BENIGN:
-            ctx.check("C10.a.benign", a[0], a[1], construct, True, "uncovered but benign: " + BENIGN[key], line=call.lineno)
+        # a helper extracted from a function whose only uncovered use is benign inherits the reason (same evaluation, one call deeper)
+        inherited = None
+        if key not in BENIGN:
+            callers = [(x[1], y[1]) for x, y, cov_, _ in edges if y == a and cov_ is None]
+            if callers and all(k in BENIGN for k in callers):
+                inherited = BENIGN[callers[0]]
+        if key in BENIGN or inherited:
+            ctx.check("C10.a.benign", a[0], a[1], construct, True, "uncovered but benign: " + (BENIGN.get(key) or inherited), line=call.lineno)
         else:
             ctx.check("C10.a.containment", a[0], a[1], construct, False,
                       "call edge %s (line %d) reaches an expression evaluator outside the per-flow try/except of _advance_head_front: a runtime error in ONE flow's "
